@@ -125,6 +125,13 @@ func checkC03Format(f string, d *Decoded, vs *vlist) {
 				vs.add("C03.apk.checksum-wrong", f, "%s: PAX checksum %s, content hashes to %s", e.Abs, e.Digest, sha1hex(e.Data))
 			}
 		}
+		// a symbolic link's checksum, where one is stored, is the digest of its target string: that is what apk
+		// computes for the installed link (apk_fileinfo_get) and compares in `apk audit`
+		for _, e := range d.Payload {
+			if e.Kind == "symlink" && e.Digest != "" && e.Digest != sha1hex([]byte(e.Link)) {
+				vs.add("C03.apk.symlink-checksum", f, "%s -> %s: PAX checksum %s, the link target hashes to %s", e.Abs, e.Link, e.Digest, sha1hex([]byte(e.Link)))
+			}
+		}
 		for _, e := range d.ControlTar {
 			if e.Name == ".PKGINFO" {
 				continue
